@@ -5,5 +5,5 @@ LEVEL = "exploration"
 RUNS = {"quick": 60000, "thorough": 2000000}
 BUDGET_S = {"quick": 45, "thorough": 840}
 CHUNK = 400
-RULE = ('One evaluation = one seeded run as in C11 plus fault injection (spawn failure ENOENT/EAGAIN, log open/write error, slow spawn, slow death after SIGKILL, exit/time-out coincidence). Oracles: a final state never changes; at most one spawn per task; after the faults stop every accepted task reaches a final state within 50+20n driver steps; that state is in the admissible set computed by an independent model from exit code, time limit, cancel timing, start/log failure and dependency outcomes; logs equal the process output; no process outlives a final state. Non-trivial = some task ended other than completed, or >=2 tasks; distinct = different event-log digest.')
+RULE = ('One evaluation = one seeded run as in C11 plus fault injection (spawn failure ENOENT/EAGAIN, log open/write error, slow spawn, slow death after SIGKILL, exit/time-out coincidence, output larger than the pipe capacity on either stream so that a reader that does not drain both blocks the process, scripts with children - known finding F-C13-2). Oracles: a final state never changes; at most one spawn per task; after the faults stop every accepted task reaches a final state within 50+20n driver steps; that state is in the admissible set computed by an independent model from exit code, time limit, cancel timing, start/log failure and dependency outcomes; logs equal the process output; no process outlives a final state. Non-trivial = some task ended other than completed, or >=2 tasks; distinct = different event-log digest.')
 make_scenario = make({"C13"}, "pool")
